@@ -252,7 +252,7 @@ def run_check(cid, tier, seed, n_override=None, wall_override=None, workers=None
         )
 
     reported = []
-    if unknown and not harness_errors:
+    if unknown:
         by_clause = {}
         for idx, plan, v in unknown:
             by_clause.setdefault(v["clause"], (idx, plan, v))
@@ -317,7 +317,7 @@ def run_check(cid, tier, seed, n_override=None, wall_override=None, workers=None
 
     wall_s = time.time() - t0
     if harness_errors:
-        exit_code = 2
+        exit_code = 1 if reported else 2
         for h in harness_errors[:3]:
             lines.append("HARNESS-ERROR %s %s" % (cid, h.strip().splitlines()[-1] if h.strip() else h))
         first_tb = next((h for h in harness_errors if "Traceback" in h), None)
